@@ -204,7 +204,31 @@ func threatBoard(r *rand.Rand, n int) (evBoard, tak.Color, bool, string) {
 		}
 		return nil
 	}
-	flat := func(c tak.Color) tak.Square { return evStack(r, c, tak.Flat, 1+r.Intn(3)/2, 0) }
+	// tall: a stack higher than the carry limit - own flat on top, about n enemy stones directly below, own or mixed stones
+	// deeper: whatever is carried away, an enemy stone stays on top of the origin
+	tall := func(c tak.Color) tak.Square {
+		k := n - 1 + r.Intn(3)
+		deep := 1 + r.Intn(3)
+		sq := tak.Square{tak.MakePiece(c, tak.Flat)}
+		for i := 0; i < k; i++ {
+			sq = append(sq, tak.MakePiece(c.Flip(), tak.Flat))
+		}
+		for i := 0; i < deep; i++ {
+			dc := c
+			if r.Intn(3) == 0 {
+				dc = c.Flip()
+			}
+			sq = append(sq, tak.MakePiece(dc, tak.Flat))
+		}
+		return sq
+	}
+	tallLinks := r.Intn(6) == 0
+	flat := func(c tak.Color) tak.Square {
+		if tallLinks && r.Intn(3) == 0 {
+			return tall(c)
+		}
+		return evStack(r, c, tak.Flat, 1+r.Intn(3)/2, 0)
+	}
 	row := r.Intn(n)
 	gap := r.Intn(n)
 	fam := ""
@@ -279,7 +303,9 @@ func threatBoard(r *rand.Rand, n int) (evBoard, tak.Color, bool, string) {
 		if get(x, y) != nil || r.Intn(2) == 0 {
 			continue
 		}
-		switch r.Intn(7) {
+		switch r.Intn(8) {
+		case 7:
+			set(x, y, tall(me)) // own flat on a stack taller than the carry limit with enemy stones right below it
 		case 0:
 			set(x, y, evStack(r, me, tak.Flat, 1, 0)) // a free single that can slide in
 		case 1:
